@@ -779,3 +779,12 @@ CHECKS["C14"]["text"] += (
 CHECKS["C15"]["text"] += (
     " Classification does not depend on the data type of the x data "
     "(integers, float32).")
+CHECKS["C10"]["text"] += (
+    " A published output is complete only if it also reports the length and "
+    "carries the metadata of the fault-free output (the run identifier, "
+    "which a filtered export derives afresh, is not compared).")
+CHECKS["C18"]["text"] += (
+    " A contour of at least four points has a finite volume.")
+CHECKS["C17"]["text"] += (
+    " The contour schedules interleave accesses to an event whose contour "
+    "cannot be computed; the other events still get their own contour.")
